@@ -307,23 +307,85 @@ def Ctx.taskResponse (c : Ctx) : Resp :=
 
 /-! ### the leaf side above the per-series result -/
 
+/-- a select item: `fn = 0` bare field, otherwise `fn(field)` -/
+structure SelItem where
+  fn : Nat
+  field : FName
+  deriving DecidableEq, Repr
+
+
 /-- `LeafReduceContext.Reduce` over the down-sampled grouped iterators of all shards of the node,
 then `BuildResultSet` for ONE receiver. `its` are the grouped iterators in reduce order. -/
 def leafPayload (v : Variant) (specs : List Spec) (cap : Nat) (its : List TS) : Payload :=
   { cap := cap, specs := specs,
     series := if its.isEmpty then [] else ((Agg.new specs cap).aggregateAll v its).emit }
 
+/-- `field.Type.DownSamplingFunc()` (function type code; 0 = Unknown) -/
+def downSamplingFunc : Nat → Nat
+  | 1 => 1 | 2 => 2 | 3 => 3 | 4 => 6 | 5 => 1 | 6 => 7 | _ => 0
+
+/-- `field.Type.IsFuncSupported(funcType)` -/
+def funcSupported (ftype fn : Nat) : Bool :=
+  match ftype with
+  | 1 => fn == 1 || fn == 2 || fn == 3 || fn == 10
+  | 2 => fn == 2
+  | 3 => fn == 3
+  | 4 => fn == 1 || fn == 2 || fn == 3 || fn == 6
+  | 5 => fn == 1
+  | 6 => fn == 1 || fn == 2 || fn == 3 || fn == 7
+  | _ => false
+
+/-- `metadataLookup.planField`: the function type a select item adds to its field's aggregator
+spec; `none` = "cannot get default down sampling func" / "field type not support function"
+(errors that are NOT not-found errors) -/
+def planFunc (ftype fn : Nat) : Option Nat :=
+  if fn = 0 then (if downSamplingFunc ftype = 0 then none else some (downSamplingFunc ftype))
+  else if funcSupported ftype fn then some fn else none
+
+/-- `metadataLookup.Execute` on a leaf, as far as the kind of answer and the aggregator specs go.
+`schema` is the NODE-LOCAL schema of the metric: `none` = this node never saw the metric
+(`GetMetricID` fails with "metric not found"), otherwise its fields `(name, type)` in field-id
+order. `sel = none` is `select *`. A selected field the node never saw fails the whole leaf with
+"field not found". Specs come out in field-id order (`SortFields`). -/
+def leafPlan (schema : Option (List (FName × Nat))) (sel : Option (List SelItem)) :
+    Except ErrKind (List Spec) :=
+  match schema with
+  | none => .error .notFound
+  | some fields =>
+    if fields.isEmpty then .error .notFound
+    else
+      let items : List SelItem := match sel with
+        | none => fields.map (fun f => { fn := 0, field := f.1 })
+        | some l => l
+      if items.isEmpty then .error .other   -- ErrEmptySelectList
+      else
+        -- first item (in select order) that fails decides the error
+        -- (with `select *` planField's error is dropped by selectList: no item can fail)
+        let bad := if sel.isNone then none else items.findSome? (fun it =>
+          match fields.find? (fun f => f.1 == it.field) with
+          | none => some ErrKind.notFound
+          | some f => if (planFunc f.2 it.fn).isNone then some ErrKind.other else none)
+        match bad with
+        | some e => .error e
+        | none =>
+          .ok (fields.filterMap (fun f =>
+            let fns := (items.filter (fun it => it.field == f.1)).filterMap (fun it => planFunc f.2 it.fn)
+            if fns.isEmpty && sel.isSome then none
+            else some { name := f.1, ftype := f.2, funcs := fns.eraseDups }))
+
+/-- the leaf's answer to a single receiver: plan, then reduce + `BuildResultSet`, or the error -/
+def leafAnswer (v : Variant) (schema : Option (List (FName × Nat))) (sel : Option (List SelItem))
+    (cap : Nat) (its : List TS) : Resp :=
+  match leafPlan schema sel with
+  | .error .notFound => .notFound
+  | .error .other => .error
+  | .ok specs => .ok (leafPayload v specs cap its)
+
 /-- `BuildResultSet` with `r > 1` receivers: series go to receiver `h(tags) % r` -/
 def splitByHash (h : Tag → Nat) (r : Nat) (p : Payload) : List Payload :=
   (List.range r).map (fun i => { p with series := p.series.filter (fun ts => h ts.tags % r == i) })
 
 /-! ### root: select evaluation, order by, limit -/
-
-/-- a select item: `fn = 0` bare field, otherwise `fn(field)` -/
-structure SelItem where
-  fn : Nat
-  field : FName
-  deriving DecidableEq, Repr
 
 /-- `expression.eval` for `FieldExpr` / `CallExpr{Sum,Min,Max,Count,Last,First}`: the field must
 have an aggregator (it is in `fieldStore`), `dynamicField.getFieldValues` keeps the wanted
